@@ -20,8 +20,8 @@ var (
 	c03Hosts   = []string{"a.example", "A.Example", "b.example", "a.example.", "127.0.0.1", "[::1]", "[::1:8080]", "[2001:db8::1]", "xn--nxasmq6b.example"}
 	c03Ports   = []string{"", ":", ":80", ":443", ":8080", ":080"}
 	c03Paths   = []string{"", "/", "/a", "/A", "/%61", "/%41", "/a/", "/a/b", "/a%2Fb", "/a%2fb", "/a/./b", "/a/x/../b", "/a/%2e/b", "/~u", "/%7Eu", "/%7eu",
-		"/é", "/%E9", "/%C3%A9", "/%c3%a9", "/a;p", "/a;p=1", "/a%20b", "/a+b", "/a%2Bb", "//a", "/a//b", "/%00", "/%25", "/%2561"}
-	c03Queries = []string{"", "?", "?q=1", "?q=%E9", "?q=é", "?q=%C3%A9", "?a=1&b=2", "?b=2&a=1", "?q=a+b", "?q=a%20b", "?q=a%2Bb", "?Q=1", "?q=%41", "?q=A", "?q=%7e", "?q=~", "?q=1#f"}
+		"/é", "/%E9", "/%C3%A9", "/%c3%a9", "/\xe9", "/\xe8", "/\xff", "/\xef\xbf\xbd", "/%EF%BF%BD", "/a;p", "/a;p=1", "/a%20b", "/a+b", "/a%2Bb", "//a", "/a//b", "/%00", "/%25", "/%2561"}
+	c03Queries = []string{"", "?", "?q=1", "?q=%E9", "?q=é", "?q=%C3%A9", "?q=\xe9", "?q=\xe8", "?q=\xff", "?q=\xef\xbf\xbd", "?q=%EF%BF%BD", "?q=\xc3", "?q=\xc3\x28", "?a=1&b=2", "?b=2&a=1", "?q=a+b", "?q=a%20b", "?q=a%2Bb", "?Q=1", "?q=%41", "?q=A", "?q=%7e", "?q=~", "?q=1#f"}
 	c03Frags   = []string{"", "#x"}
 	c03User    = []string{"", "u@", "u:p@"}
 )
